@@ -8,7 +8,8 @@ import subprocess
 import sys
 
 ROOT = "/verif"
-EXTRA = {"C01": ["C07"], "C02": ["C06"], "C03": ["C07"], "C05": ["C04"], "C07": ["C01"], "C08": ["C02"]}
+EXTRA = {"C01": ["C07"], "C02": ["C06"], "C03": ["C07"], "C05": ["C04"], "C07": ["C01"], "C08": ["C02"], "C06": ["C02"],
+         "C10": ["C11"], "C15": []}
 
 
 def sh(cmd, timeout=3600):
@@ -39,7 +40,7 @@ def main():
         try:
             props = [meta["property"]] + EXTRA.get(meta["property"], [])
             for p in props:
-                rc, out = sh(f"cd {ROOT} && ./check {p} --tier quick")
+                rc, out = sh(f"cd {ROOT} && VERIF_FAILFAST=1 ./check {p} --tier quick")
                 viol = [l for l in out.splitlines() if l.startswith("VIOLATION")]
                 summ = [l for l in out.splitlines() if l.startswith(p + " [")]
                 det[p] = dict(exit=rc, violations=len(viol), first=(viol[0][:300] if viol else None),
